@@ -1764,7 +1764,28 @@ impl Property for C16 {
             prologue: case.scn.prologue,
             events: case.scn.events.iter().filter(|e| !matches!(e, Ev::DropStream { .. })).cloned().collect(),
         };
+        // a third of the scripts end with run() returning (end-of-stream / server DISCONNECT) while
+        // a ping and whatever else is outstanding stay pending and the Context stays alive: polls
+        // after that point must not change anything either
+        let mut base = base;
+        let hh = case_hash(case);
+        if hh % 3 == 0 {
+            base.events.push(Ev::Start { h: 0, kind: OpKind::Ping, settle: false, solo: false });
+            base.events.push(Ev::Terminate(match (hh / 3) % 3 {
+                0 => Cause::Eof,
+                1 => Cause::ServerDisconnect(rc::Disconnect { reason: 0x8b, ..Default::default() }, true),
+                _ => Cause::ServerDisconnect(rc::Disconnect::default(), false),
+            }));
+            base.events.push(Ev::Settle);
+            o.class("script-ends-with-run-returning");
+        }
         let mut with_spurious = base.clone();
+        if hh % 3 == 0 {
+            // un-woken polls of the newest and the oldest operation after run() has returned
+            with_spurious.events.push(Ev::PollOp { sel: 65535 });
+            with_spurious.events.push(Ev::PollOp { sel: 0 });
+            with_spurious.events.push(Ev::Settle);
+        }
         for (pos, what) in &case.spurious {
             let at = ((*pos as usize) * (with_spurious.events.len() + 1)) >> 16;
             let ev = match what {
